@@ -48,7 +48,7 @@ class Cases:
 
 
 def run(ctx):
-    ctx.prove(["PvModel.Props.C13"])
+    ctx.prove(["PvModel.Props.C13", "PvModel.Props.C13L"])
     ctx.suites_run.append(SUITE)
     rng = ctx.rng
     n_decl = 60 if not ctx.thorough else 600
@@ -187,6 +187,36 @@ def run(ctx):
                 ctx.case(("perm-rand", n, tuple(r)), kind="randomize")
                 if sorted(r) != list(range(n)):
                     ctx.fail("C13/PermutationVariable.randomize/out-of-domain", f"{r!r}", SUITE, {"n": n})
+
+    # ---------------- the label encoder behind PermutationVariable.decode ----------------
+    for pool in item_pools + [["x"], [1, 2.5, "1"], [(1, 2), (1, 3), "t"]]:
+        for n in range(1, len(pool) + 1):
+            items = pool[:n]
+            try:
+                enc = LabelEncoder().fit(items)
+            except TypeError:
+                continue                      # unorderable mix: rejected at fit, outside the quantifier (distinct hashable, sortable items)
+            labels = list(enc.__unique_labels__)
+            code = {repr(l): i for i, l in enumerate(items)}          # arbitrary injective coding of the labels for the model
+            if len({repr(l) for l in labels}) != len(labels):
+                continue
+            lj = [code[repr(l)] for l in labels]
+            exp_labels = sorted(set(items), key=lambda x: (isinstance(x, (int, float)), x))
+            if [repr(x) for x in labels] != [repr(x) for x in exp_labels]:
+                ctx.fail("C13/LabelEncoder.fit/labels-not-sorted-distinct", f"{labels!r}", SUITE, {"kind": "labels", "items": repr(items)})
+            for _ in range(4):
+                y = [rng.choice(items) for _ in range(rng.randrange(0, n + 2))]
+                ok1, r = call(enc.transform, y)
+                C.add({"op": "label.transform", "labels": lj, "y": [code[repr(x)] for x in y]}, [int(i) for i in r] if ok1 else {"err": type(r).__name__},
+                      {"kind": "labels", "items": repr(items), "x": repr(y), "op": "transform"})
+                idx = [rng.randrange(0, n + 2) for _ in range(rng.randrange(0, n + 2))]
+                ok2, r2 = call(enc.inverse_transform, idx)
+                C.add({"op": "label.inverse", "labels": lj, "y": idx}, [None if (isinstance(x, str) and x == "unknown" and "unknown" not in items) else code[repr(x)] for x in r2] if ok2 else {"err": type(r2).__name__},
+                      {"kind": "labels", "items": repr(items), "x": repr(idx), "op": "inverse_transform"})
+                if ok1:
+                    back = enc.inverse_transform(r)
+                    if [repr(b) for b in back] != [repr(x) for x in y]:
+                        ctx.fail("C13/LabelEncoder/inverse_transform-of-transform-not-identity", f"{y!r} -> {r!r} -> {back!r}", SUITE, {"kind": "labels", "items": repr(items)})
 
     # ---------------- multi / binary: delegation to children ----------------
     for _ in range(n_decl // 2):
